@@ -504,13 +504,35 @@ def _edit_target(name: str) -> str:
     return os.path.join("jsonschemas", f"{name}.yaml")
 
 
+def _make_restricted(top: str) -> str:
+    """A restricted-data folder (the documented add-on layout: metadata.yaml with the SPSDK version, data/common, data/devices)
+    whose only content is its own copy of the defaults file - which then takes precedence over the main one."""
+    import spsdk
+
+    r = os.path.join(top, "restricted")
+    os.makedirs(os.path.join(r, "data", "common"))
+    os.makedirs(os.path.join(r, "data", "devices"))
+    v = spsdk.version
+    with open(os.path.join(r, "metadata.yaml"), "w") as f:
+        f.write(f'version: "{v.major}.{v.minor}"\n')
+    src = os.path.join(_Z["data0"], "common", "database_defaults.yaml")
+    dst = os.path.join(r, "data", "common", "database_defaults.yaml")
+    shutil.copy2(src, dst)
+    return r
+
+
 def _apply_edit(data: str, name: str, gen: int, revert: bool = False) -> None:
     """Replace one source file of the private data folder by an edited version (new inode: the hard-linked original stays
     untouched), with a deterministic new mtime.  revert=True writes the ORIGINAL content back (only the mtime is new)."""
     import yaml
 
-    rel = _edit_target(name)
-    path = os.path.join(data, rel)
+    if name == "rdefaults":  # the defaults file of the restricted-data folder (a sibling of the private data folder)
+        rel = os.path.join("common", "database_defaults.yaml")
+        path = os.path.join(os.path.dirname(data), "restricted", "data", rel)
+        name = "defaults"
+    else:
+        rel = _edit_target(name)
+        path = os.path.join(data, rel)
     orig = os.path.join(_Z["data0"], rel)
     st0 = os.stat(orig)
     if revert:
@@ -548,6 +570,7 @@ def w_source(case: dict) -> dict:
         cdir = os.path.join(top, "cache")
         os.makedirs(cdir)
         nref = [0]
+        restricted = _make_restricted(top) if case.get("restricted") else None
 
         def proc(light: bool, disabled: bool = False) -> Any:
             if disabled:
@@ -560,6 +583,8 @@ def w_source(case: dict) -> dict:
             def body():
                 _child_env(c, disabled=disabled)
                 dbm.SPSDK_DATA_FOLDER = data
+                if restricted:
+                    dbm.SPSDK_RESTRICTED_DATA_FOLDER = restricted
                 return battery(_Z["devs"], light)
 
             return in_child(body)
@@ -583,6 +608,8 @@ def w_source(case: dict) -> dict:
                 return {"__crash__": f"reference run failed after {applied}: {ref['exception']}", "tb": ref.get("tb", "")}
             if ref != (_Z["qref_light"] if light else _Z["qref"]):
                 observable = True
+            elif any(n.endswith("rdefaults") and not n.startswith("revert:") for n in step["edits"]):
+                return {"__crash__": f"restricted-data edit {step['edits']} is not observable: the restricted folder is not in effect", "tb": ""}
             tagd = "+".join(n.split(":")[0] if n.startswith("revert:") else n for n in step["edits"])
             if isinstance(got, dict) and "exception" in got:
                 exc = got["exception"].split(":")[0]
@@ -601,7 +628,7 @@ def w_source(case: dict) -> dict:
             if f.endswith(".cache"):
                 after[_short(f)] = "valid" if file_valid(os.path.join(cdir, f)) == "valid" else "other"
         return {"viol": core.dedupe(viol), "observable": observable, "procs": 1 + 2 * len(case["steps"]),
-                "distinct": [f"src|warm={case['warm']}|" + ";".join("+".join(st["edits"]) + "/" + st["battery"] for st in case["steps"]) + "|" + ",".join(outs)]}
+                "distinct": [f"src|warm={case['warm']}|{'restricted|' if case.get('restricted') else ''}" + ";".join("+".join(st["edits"]) + "/" + st["battery"] for st in case["steps"]) + "|" + ",".join(outs)]}
     finally:
         shutil.rmtree(top, ignore_errors=True)
 
@@ -624,6 +651,11 @@ def source_cases(tier: str) -> list:
                     if e2:
                         steps.append({"edits": e2, "battery": b})
                     out.append({"warm": w, "steps": steps})
+    # restricted-data folder with its own defaults file (which takes precedence over the main one)
+    for w in warms:
+        for b in bats:
+            for steps in ([["rdefaults"]], [["rdefaults"], ["revert:rdefaults"]], [["defaults"]], [["rdefaults"], ["defaults"]], [["dev0"], ["rdefaults"]]):
+                out.append({"warm": w, "restricted": True, "steps": [{"edits": e, "battery": b} for e in steps]})
     return out
 
 
